@@ -54,6 +54,9 @@ TrAdapt ==
           /\ hasInitial' = R.hasInitial
           \* the diagonal estimator always changes the transformation when it updates
           /\ (R.diag /\ R.changed) => tid' = tid + 1
+          \* C09: the reported diagonal scales are those of exactly the fg.n most recent accepted draws
+          \* (harness-side recomputation with the estimator's recursion, 1e-9)
+          /\ R.mmok
     \* ---- public output (C06)
     /\ R.ptuning = (draw < P.numTune)          \* Progress.tuning
     /\ R.stuning = (draw < P.numTune)          \* stats "tuning"
